@@ -189,6 +189,17 @@ theorem afterAppend_sub (m : Mem) (t : Trace) : DerSub (m.afterAppend t) m := by
   · exact setWalSize_sub m t.ws
   · exact DerSub.trans (autoCommit_sub _ t) (setWalSize_sub m t.ws)
 
+theorem foldEmbs_all (m : Mem) (embs : List VecEnt) : SameAll (m.foldEmbs embs) m := by
+  unfold Mem.foldEmbs; split
+  · exact SameAll.refl m
+  · exact ⟨rfl, rfl, rfl, rfl, rfl⟩
+
+theorem clearIndexManifests_sub (m : Mem) : DerSub m.clearIndexManifests m := by
+  refine DerSub.of_fields (fun _ h => HasDer.ofCards h) (fun _ h => HasDer.ofRecs h) (fun _ h => HasDer.ofQueue h)
+    (fun _ h => HasDer.ofPQueue h) ?_
+  intro c hc
+  cases hc
+
 theorem commitSkip_sub (m : Mem) : DerSub m.commitSkipIndexes.1 m := by
   unfold Mem.commitSkipIndexes
   split
@@ -197,11 +208,13 @@ theorem commitSkip_sub (m : Mem) : DerSub m.commitSkipIndexes.1 m := by
     · exact SameAll.sub ⟨rfl, rfl, rfl, rfl, rfl⟩
     · rename_i m1 δ h1
       have hd := (applyRecords_all m m.pending false m1 δ h1).sub
-      refine DerSub.trans (DerSub.trans (checkpoint_sub _) ?_) hd
-      refine DerSub.of_fields (fun _ h => HasDer.ofCards h) (fun _ h => HasDer.ofRecs h) (fun _ h => HasDer.ofQueue h)
-        (fun _ h => HasDer.ofPQueue h) ?_
-      intro c hc
-      cases hc
+      exact DerSub.trans (checkpoint_sub _) (DerSub.trans (clearIndexManifests_sub _)
+        (DerSub.trans (foldEmbs_all m1 δ.embs).sub hd))
+
+theorem fillSketches_sub (m : Mem) : DerSub m.fillSketches m := SameAll.sub ⟨rfl, rfl, rfl, rfl, rfl⟩
+
+theorem finalizeIndexes_sub (m : Mem) (ft : Nat) : DerSub (m.finalizeIndexes ft).1 m :=
+  DerSub.trans (fillSketches_sub _) (rebuildIndexes_sub m [] [] ft)
 
 theorem delete_sub (m : Mem) (id : Nat) (t : Trace) : DerSub (m.delete id t).1 m := by
   unfold Mem.delete
@@ -276,27 +289,32 @@ theorem doctorRebuild_sub (m : Mem) (rv : Bool) (ft : Nat) : DerSub (m.doctorReb
   unfold Mem.doctorRebuild
   refine DerSub.trans (b := Mem.rebuildIndexes _ [] [] ft) (SameAll.sub ⟨rfl, rfl, rfl, rfl, rfl⟩) ?_
   refine DerSub.trans (rebuildIndexes_sub _ _ _ _) ?_
-  split
-  · exact SameAll.sub ⟨rfl, rfl, rfl, rfl, rfl⟩
-  · split
-    · exact SameAll.sub ⟨rfl, rfl, rfl, rfl, rfl⟩
-    · exact DerSub.refl m
+  repeat' split
+  all_goals first
+    | exact DerSub.refl _
+    | exact SameAll.sub ⟨rfl, rfl, rfl, rfl, rfl⟩
 
 theorem doctor_sub (m : Mem) (v rt rl rv : Bool) (a b c d : Nat) : DerSub (m.doctor v rt rl rv a b c d).1 m := by
-  unfold Mem.doctor
-  split
-  · refine DerSub.trans (openFrom_sub _ d) (DerSub.trans (dropHandle_sub _ c) ?_)
-    have h1 : DerSub (m.doctorStage1 v a b c) m := by
-      unfold Mem.doctorStage1
-      split
-      · exact DerSub.trans (vacuum_sub _ b c) (DerSub.trans (openFrom_sub _ b) (dropHandle_sub m a))
-      · exact DerSub.trans (openFrom_sub _ b) (dropHandle_sub m a)
+  have h1 : DerSub (m.doctorStage1 v a b c) m := by
+    unfold Mem.doctorStage1
+    split
+    · exact DerSub.trans (vacuum_sub _ b c) (DerSub.trans (openFrom_sub _ b) (dropHandle_sub m a))
+    · exact DerSub.trans (openFrom_sub _ b) (dropHandle_sub m a)
+  have h2 : DerSub ((m.doctorStage1 v a b c).doctorStage2 (rt || rl || rv) rv c) m := by
     refine DerSub.trans ?_ h1
     unfold Mem.doctorStage2
     split
     · exact doctorRebuild_sub _ rv c
     · exact DerSub.refl _
-  · exact DerSub.trans (openFrom_sub _ d) (dropHandle_sub m a)
+  have hmain : DerSub ((((m.doctorStage1 v a b c).doctorStage2 (rt || rl || rv) rv c).dropHandle c).openFrom d) m :=
+    DerSub.trans (openFrom_sub _ d) (DerSub.trans (dropHandle_sub _ c) h2)
+  have hdrop : DerSub ((m.dropHandle a).openFrom d) m := DerSub.trans (openFrom_sub _ d) (dropHandle_sub m a)
+  unfold Mem.doctor
+  first
+    | exact hmain
+    | (split
+       · exact hmain
+       · exact hdrop)
 
 /-! ## the closure theorems -/
 
@@ -320,7 +338,7 @@ theorem C26_only_puts_add (m : Mem) (op : Op) (h : op.derives = none) : DerSub (
   | beginBatch d ws => exact beginBatch_sub m d ws
   | endBatch => exact SameAll.sub ⟨rfl, rfl, rfl, rfl, rfl⟩
   | commitSkipIndexes => exact commitSkip_sub m
-  | finalizeIndexes ft => exact rebuildIndexes_sub m [] [] ft
+  | finalizeIndexes ft => exact finalizeIndexes_sub m ft
   | vacuum a b => exact vacuum_sub m a b
   | doctor v rt rl rv a b c d => exact doctor_sub m v rt rl rv a b c d
   | ticket s c b f => exact applyTicket_sub m s c b f
@@ -351,7 +369,6 @@ theorem putTailG_sub (p : IdPolicy) (m : Mem) (a : PutArgs) (sup reuse : Option 
   revert hx
   unfold Mem.putTailG
   split
-  · intro hx; exact Or.inl hx
   · intro hx
     -- cards / records added at the end
     have hadd : ∀ (m0 : Mem), (m0.addCards a.nc (p.id m)).HasDer x → m0.HasDer x ∨ x = p.id m := by
@@ -385,6 +402,14 @@ theorem putTailG_sub (p : IdPolicy) (m : Mem) (a : PutArgs) (sup reuse : Option 
       · exact Or.inl (HasDer.ofPQueue h2)
       · exact Or.inl (HasDer.ofPCards hc h2)
     · exact Or.inr h1
+  · rename_i hrej
+    intro hx
+    have hb : (m.putTail a sup reuse t).2.isAck = false := by
+      cases hk : (m.putTail a sup reuse t).2.isAck
+      · rfl
+      · exact absurd hk hrej
+    rw [putTail_rejected m a sup reuse t hb] at hx
+    exact Or.inl hx
 
 theorem putCoreG_sub (p : IdPolicy) (m : Mem) (a : PutArgs) (sup reuse : Option Nat) (t : Trace) (x : Nat)
     (hx : (m.putCoreG p a sup reuse t).1.HasDer x) : m.HasDer x ∨ x = p.id m := by
@@ -437,8 +462,8 @@ theorem putTailG_rejected (p : IdPolicy) (m : Mem) (a : PutArgs) (sup reuse : Op
   revert h
   unfold Mem.putTailG
   split
-  · intro _; rfl
   · intro h; simp [Out.isAck] at h
+  · intro h; exact putTail_rejected m a sup reuse t h
 
 theorem putCoreG_rejected_sub (p : IdPolicy) (m : Mem) (a : PutArgs) (sup reuse : Option Nat) (t : Trace)
     (h : (m.putCoreG p a sup reuse t).2.isAck = false) : DerSub (m.putCoreG p a sup reuse t).1 m := by
